@@ -900,4 +900,41 @@ example : validate demoPlaceholder { demoInput with genes := [['x'], ['y']] } = 
       some none := by
   decide +kernel
 
+/-! ### the real spelling of placeholder names -/
+
+/-- "placeholders unique within the file", for the names as the source spells
+them, `f"unmapped_{k}_{stamp}"`: different counters give different names, also
+after the version-suffix cut `n.split('.')[0]` - for ANY time stamps (they may
+differ from call to call, contain dots, digits or underscores: the decimal
+counter is delimited by the underscore that follows it, and the cut cannot
+reach it).  The driver's `placeholderT` is the case `stamp = fun _ => "T"`
+(`realPlaceholder_T`). -/
+theorem placeholder_spelling_injective (stamp : Nat → String) :
+    Function.Injective
+      (fun k => stripSuffix (("unmapped_" ++ toString k ++ "_" ++ stamp k).toList)) :=
+  realPlaceholder_injective stamp
+
+example : stripSuffix (("unmapped_" ++ toString 12 ++ "_" ++ "1700000000.25").toList) =
+      "unmapped_12_1700000000".toList ∧
+    stripSuffix (("unmapped_" ++ toString 1 ++ "_" ++ "2_1700000000.25").toList) =
+      "unmapped_1_2_1700000000".toList := by decide +kernel
+
+/-- "unknown ones by placeholders unique within the file", without any
+assumption on the placeholder names: with the real spelling, two different
+unknown genes of one file get different names. -/
+theorem placeholders_distinct_real {lookup : List (Name × Name)} (stamp : Nat → String) {start : Nat}
+    {genes : List Name} {o : MapOut}
+    (h : mapGenes lookup (fun k => ("unmapped_" ++ toString k ++ "_" ++ stamp k).toList) start genes
+      = .ok o)
+    {i j : Nat} (hij : i < j) (hj : j < genes.length)
+    (hui : isEnsembl genes[i] = false ∧ lookup.lookup genes[i] = none)
+    (huj : isEnsembl genes[j] = false ∧ lookup.lookup genes[j] = none) :
+    o.mapped[i]? ≠ o.mapped[j]? :=
+  placeholders_distinct h (placeholder_spelling_injective stamp) hij hj hui huj
+
+example : (mapGenes demoLookup (fun k => ("unmapped_" ++ toString k ++ "_" ++ "T").toList) 9
+    [['x'], ['A','b','c'], ['y']]).toOption.map (·.mapped) =
+    some ["unmapped_9_T".toList, ['E','N','S','G','0','7'], "unmapped_10_T".toList] := by
+  decide +kernel
+
 end CTM.C16
